@@ -8,6 +8,8 @@ pub mod lang;
 pub mod rules;
 pub mod test_utils;
 pub mod traits;
+#[cfg(pasfmt_verif)]
+pub mod verif_hooks;
 
 pub mod prelude {
     pub use crate::defaults::*;
